@@ -360,10 +360,16 @@ package vm
 //@   case OpJumpIfFalse: ensures[taken] !boolof(hs(1)) ==> vm.ip == head(vm.ip) + 3 + off(0)
 //@   case OpJumpIfFalse: ensures[not-taken] boolof(hs(1)) ==> vm.ip == head(vm.ip) + 3
 //@   case OpStore: ensures[value] vm.scopes[len(vm.scopes)-1][strof(carg(0))] == hs(1)
-//@   case OpLoad: ensures[value] has(vm.scopes[len(vm.scopes)-1], strof(carg(0))) ==> ts(1) == vm.scopes[len(vm.scopes)-1][strof(carg(0))]
+//@   case OpLoad: ensures[value] len(vm.scopes) > 0 && has(vm.scopes[len(vm.scopes)-1], strof(carg(0))) ==> ts(1) == vm.scopes[len(vm.scopes)-1][strof(carg(0))]
 //@   case OpInc: ensures[value] vm.scopes[len(vm.scopes)-1][strof(carg(0))] == intv(intof(head(vm.scopes[len(vm.scopes)-1][strof(carg(0))])) + 1)
 //@   case OpArray: ensures[length] vlen(ts(1)) == intof(hs(1))
 //@   case OpArray: ensures[elements] forall(k, 0, intof(hs(1)), velem(ts(1), k) == head(vm.stack[len(vm.stack) - 1 - intof(hs(1)) + k]))
 //@   loop OpArray invariant[filled] forall(k, i+1, size, array[k] == pre(vm.stack[len(vm.stack) - size + k]))
 //@   case OpRange: ensures[length] vlen(ts(1)) == ite(res("vm.toInt", hs(1)) - res("vm.toInt", hs(2)) + 1 > 0, res("vm.toInt", hs(1)) - res("vm.toInt", hs(2)) + 1, 0)
 //@   case OpRange: ensures[elements] forall(k, 0, vlen(ts(1)), velemint(ts(1), k) == res("vm.toInt", hs(2)) + k)
+//@   loop OpCall invariant[stack-mem] forall(k, 0, pre(len(vm.stack)), vm.stack[k] == pre(vm.stack[k]))
+//@   loop OpCallFast invariant[stack-mem] forall(k, 0, pre(len(vm.stack)), vm.stack[k] == pre(vm.stack[k]))
+//@   loop OpMethod invariant[stack-mem] forall(k, 0, pre(len(vm.stack)), vm.stack[k] == pre(vm.stack[k]))
+//@   loop OpMethodNilSafe invariant[stack-mem] forall(k, 0, pre(len(vm.stack)), vm.stack[k] == pre(vm.stack[k]))
+//@   loop OpArray invariant[stack-mem] forall(k, 0, pre(len(vm.stack)), vm.stack[k] == pre(vm.stack[k]))
+//@   loop OpMap invariant[stack-mem] forall(k, 0, pre(len(vm.stack)), vm.stack[k] == pre(vm.stack[k]))
